@@ -1245,12 +1245,17 @@ def create_coalesent(id_, tree_id, taxa, arg):
             theta_shape = [arg.grid]
 
         if arg.coalescent_non_centered:
+            theta1 = 1.0
+            if "_coalescent_init" in arg and isinstance(
+                arg._coalescent_init, numbers.Number
+            ):
+                theta1 = math.log(arg._coalescent_init)
             theta = {
                 "id": f"{id_}.theta",
                 "type": "TransformedParameter",
                 "transform": "CumSumExpTransform",
                 "x": [
-                    {"id": "theta1.unres", "type": "Parameter", "tensor": [1.0]},
+                    {"id": "theta1.unres", "type": "Parameter", "tensor": [theta1]},
                     {
                         "id": "theta.unres",
                         "type": "Parameter",
